@@ -256,7 +256,9 @@ impl C14 {
     pub fn judge_set(&self, k: u64, ctx: &mut Ctx, flip: bool) -> bool {
         let nthreads = 16;
         let max_plain = self.tier.pick(8_000, 60_000);
+        ctx.phase("nonverdict: building the input set");
         let inputs = Arc::new(input_set(self.seed, k, 12, max_plain));
+        ctx.phase("verdict: baseline and concurrent phases");
         let base = Arc::new(baseline(&inputs));
         let mut bad = false;
         // (a) repeated sequential evaluation
